@@ -78,6 +78,8 @@ class WrapUse(Stream):
                         out.append("unwrap at the end of the chain: %s (token live: %s) %s" % (a, live, where))
                     live = False
             return out
+        if first[0] in ("cgunwrap", "cgstanza"):
+            return []          # predicate-level lines: the harness's own marker is the verdict
         if first[0] != "winit":
             return ["case without winit"]
         kinds = first[3:]
